@@ -121,6 +121,7 @@ impl<'a> Ctx<'a> {
             *r = base | if rng.chance(1, 2) { 0 } else { (rng.u8() as u32) << 24 };
         }
         let pc = if rng.chance(1, 4) { 0x416900 + (rng.below(0x100) as u32 & !1) } else { 0xffc000 + (rng.below(0x400) as u32 & !1) };
+        let pc = pc | rng.chance(1, 16) as u32; // bit 0 of PC is ignored by fetch
         let mut c = Case::words(pc, words);
         c.er = er;
         c.ccr = rng.u8();
